@@ -37,7 +37,7 @@ func (c08) Level() string         { return "exploration" }
 func (c08) RaceIsViolation() bool { return true }
 func (c08) Rule() string {
 	return "cases = generated universe x batch of 0..12 operations (core queries, mutations, introspection, operations that fail validation, ambiguous / unknown operationName, operations whose downstream fails because they touch a designated poison root field, and slow operations held at their owning service by a gate) x completion order of the gated operations (a permutation released one by one) x AsyncMapReduce hook jitter; " +
-		"oracle = differential against the same gateway: element i of the batch answer must equal the answer obtained by sending operation i alone (data exactly, errors as a multiset), the array has length N; the race detector watches the real pipeline; " +
+		"oracle = differential against the same gateway: element i of the batch answer must equal the answer obtained by sending operation i alone (data exactly, errors as a multiset), the array has length N; the multiset of (service, sub-request text, variables) received during the batch equals the one received over the single runs; the race detector watches the real pipeline; " +
 		"distinct = distinct (batch content hash, release order); non-trivial = N >= 2 and at least two different kinds of element"
 }
 func (c08) Assumptions() []string {
@@ -254,6 +254,11 @@ func (p c08) Exec(c *run.Ctx, idx int, raw json.RawMessage) []run.Result {
 		s.FaultFn = r.Services[0].FaultFn
 	}
 	// alone runs
+	evKey := func(e *fake.Event) string {
+		vb, _ := json.Marshal(e.Variables)
+		return e.Service + " | " + strings.Join(strings.Fields(e.Query), " ") + " | " + string(vb)
+	}
+	aloneMark := ra.Log.Len()
 	alone := make([]*rig.GQLResponse, len(sp.Ops))
 	kinds := map[string]bool{}
 	for i := range sp.Ops {
@@ -284,6 +289,11 @@ func (p c08) Exec(c *run.Ctx, idx int, raw json.RawMessage) []run.Result {
 	}
 	sched.Install(sched.Options{Seed: sp.Jitter, Jitter: true, Record: true, MaxEvents: 20000})
 	defer sched.Uninstall()
+	aloneEvents := map[string]int{}
+	for _, e := range ra.Log.Since(aloneMark) {
+		aloneEvents[evKey(e)]++
+	}
+	batchMark := r.Log.Len()
 	body, _ := json.Marshal(opsToWire(sp.Ops))
 	done := make(chan *rig.HTTPResult, 1)
 	go func() { done <- r.Do("application/json", body) }()
@@ -335,6 +345,23 @@ func (p c08) Exec(c *run.Ctx, idx int, raw json.RawMessage) []run.Result {
 	for i := range got {
 		if d := sameResponse(alone[i], got[i]); d != nil {
 			return fail("batch-element-differs-from-single: "+d.Kind, fmt.Sprintf("element %d of %d (release order %v): %s\noperation: %s", i, len(got), sp.Order, d.String(), sp.Ops[i].Query))
+		}
+	}
+	// what the services were asked: the batch causes exactly the sub-requests its operations cause one by one
+	// (an operation sent twice reaches its services twice)
+	batchEvents := map[string]int{}
+	for _, e := range r.Log.Since(batchMark) {
+		batchEvents[evKey(e)]++
+	}
+	res.Counters["downstream_requests_compared"] = len(batchEvents)
+	for _, k := range sortedKeys(aloneEvents) {
+		if batchEvents[k] != aloneEvents[k] {
+			return fail("batch-downstream-requests-differ-from-singles", fmt.Sprintf("sub-request received %d times in the batch run, %d times over the single runs: %s", batchEvents[k], aloneEvents[k], head(k, 500)))
+		}
+	}
+	for _, k := range sortedKeys(batchEvents) {
+		if aloneEvents[k] == 0 {
+			return fail("batch-downstream-requests-differ-from-singles", fmt.Sprintf("sub-request received %d times in the batch run, never over the single runs: %s", batchEvents[k], head(k, 500)))
 		}
 	}
 	if res.NonTrivial {
